@@ -1331,6 +1331,49 @@ def run_c16(ctx):
         elif not res["ab"] and canon["changed"] is None:
             ctx.violation("E4", f"identical {canon['kind']} meshes compare unequal", canon, impl=res)
         ctx.traces_validated += 1
+    # (1b) tolerances set by the user on a mesh or on a permuted view of it, including exact zeros: the answer follows the
+    #      tolerances that were set (receiver's tolerances), in particular a zero relative tolerance is not replaced by a default
+    for it in range(80 if q else 2000):
+        M = G.gen_mesh(rng, max_cells=4)
+        used = sorted({c for _, rows in M["blocks"] for r in rows for c in r})
+        cand = [(i, d) for i in used for d in range(M["dim"]) if M["pts"][i][d] != 0]
+        if not cand:
+            continue
+        i, d = rng.choice(cand)
+        N = G.copy_mesh(M)
+        N["pts"][i][d] = M["pts"][i][d] * (1 + Fr(1, 2 ** 30))          # relative deviation ~ 9e-10: below the default 1e-8
+        rel_set, abs_set = rng.choice([(0.0, 0.0), (0.0, 1e-300), (1e-12, 0.0), (None, None), (1e-6, 0.0)])
+        view = rng.random() < 0.6 and PermutedMesh is not None
+        canon = {"a": json_mesh(M), "b": json_mesh(N), "kind": "user tolerances", "rel_tol": rel_set, "abs_tol": abs_set, "on_view": view,
+                 "moved": [i, d]}
+        try:
+            with quiet():
+                warnings.simplefilter("ignore")
+                a, b = G.to_fieldcompare(M).domain, G.to_fieldcompare(N).domain
+                if view:
+                    a = PermutedMesh(a)
+                if rel_set is not None:
+                    a.set_tolerances(abs_tol=abs_set, rel_tol=rel_set)
+                got = bool(a.equals(b))
+                seen = (float(a.relative_tolerance), float(a.absolute_tolerance)) if rel_set is not None else None
+        except Exception as e:  # noqa: BLE001
+            ctx.violation("E4", f"equals with user tolerances raised {type(e).__name__}: {e}", canon)
+            continue
+        # statement: |x - y| <= max(rel * max(|x|,|y|), abs) entry by entry, with the receiver's tolerances
+        x, y = abs(M["pts"][i][d]), abs(N["pts"][i][d])
+        if rel_set is None:
+            want = None                     # defaults: covered by stream (1)
+        else:
+            want = abs(y - x) <= max(Fr(rel_set) * max(x, y), Fr(abs_set))
+        ctx.case(canon, True, sample={"rel_tol": rel_set, "abs_tol": abs_set, "on_view": view, "impl": got, "statement": want})
+        ctx.count(f"c16:user tolerances:{'view' if view else 'mesh'}:rel={rel_set}")
+        if seen is not None and seen != (float(rel_set), float(abs_set)):
+            ctx.violation("E4", f"the tolerances set on the mesh ({rel_set}, {abs_set}) are not the ones it reports ({seen[0]}, {seen[1]})",
+                          canon)
+        elif want is not None and got != want:
+            ctx.violation("E4", f"equals answers {got} under rel_tol={rel_set}, abs_tol={abs_set} set by the user; the statement "
+                                f"requires {want}", canon)
+        ctx.traces_validated += 1
     # (2b) image grids that differ in WHICH direction is flat, or in one entry of the direction matrix
     from fieldcompare.mesh import ImageMesh as _ImageMesh
     for it in range(120 if q else 3000):
@@ -1441,6 +1484,19 @@ def run_c17(ctx):
             # an (n,1) array is a scalar field by the library's convention ((n,) ~ (n,1)); 1-component "vectors" are not generated
             M["pf"].pop("v", None)
             M["cf"].pop("cv", None)
+        if rng.random() < 0.3:
+            M["ptype"] = "float32"          # coordinates in single precision, fields in double precision ...
+            for nm in ("v", "t"):           # ... holding values that single precision cannot represent
+                if nm in M["pf"]:
+                    row = M["pf"][nm][rng.randrange(len(M["pts"]))]
+                    if nm == "v":
+                        row[rng.randrange(len(row))] = Fr(2 ** 24 + 1)
+                    else:
+                        row[0][0] = Fr(2 ** 24 + 3)
+            if "cv" in M["cf"]:
+                t0 = next(iter(M["cf"]["cv"]))
+                if M["cf"]["cv"][t0]:
+                    M["cf"]["cv"][t0][0][0] = Fr(2 ** 25 + 1)
         P = pad_mesh(M)
         variant = rng.choice(["zero", "zero", "zero", "coord", "vector", "tensor"])
         tol = G.dyadic_tol(M)
@@ -1465,14 +1521,17 @@ def run_c17(ctx):
         reorder = rng.random() < 0.5
         Pr = G.relabel(rng, P)[0] if reorder else P
         disabled = rng.random() < 0.25
+        no_reordering = (not reorder) and rng.random() < 0.3       # dimension matching does not depend on the reordering retries
         role = rng.choice(["low_is_source", "low_is_reference"])
         A, B = (M, Pr) if role == "low_is_source" else (Pr, M)
         canon = {"low": json_mesh(M), "padded": json_mesh(Pr), "variant": variant, "site": site, "role": role,
-                 "disable_space_dimension_matching": disabled, "reordered": reorder}
+                 "disable_space_dimension_matching": disabled, "reordered": reorder, "disable_mesh_reordering": no_reordering,
+                 "coordinates": M.get("ptype", "float64")}
         try:
             with quiet():
                 warnings.simplefilter("ignore")
-                res = compare_impl(G.to_fieldcompare(A), G.to_fieldcompare(B), disable_space_dimension_matching=disabled)
+                res = compare_impl(G.to_fieldcompare(A), G.to_fieldcompare(B), disable_space_dimension_matching=disabled,
+                                   **({"disable_mesh_reordering": True} if no_reordering else {}))
         except Exception as e:  # noqa: BLE001
             ctx.case(canon, True)
             ctx.violation("E4", f"comparison raised {type(e).__name__}: {e}", canon)
@@ -1483,7 +1542,8 @@ def run_c17(ctx):
             try:
                 with quiet():
                     warnings.simplefilter("ignore")
-                    ladder_batch.append((canon, ladder_expr(A, B, {"disable_space_dimension_matching": disabled}), res))
+                    ladder_batch.append((canon, ladder_expr(A, B, {"disable_space_dimension_matching": disabled,
+                                                                   **({"disable_mesh_reordering": True} if no_reordering else {})}), res))
             except Exception:  # noqa: BLE001
                 pass
         ctx.count(f"c17:{variant}:{'disabled' if disabled else 'enabled'}")
@@ -1657,7 +1717,8 @@ def replay(pid, rec):
             return bad is None
         if pid == "C17" and "low" in c:
             A, B = (M(c["low"]), M(c["padded"])) if c["role"] == "low_is_source" else (M(c["padded"]), M(c["low"]))
-            res = compare_impl(G.to_fieldcompare(A), G.to_fieldcompare(B), disable_space_dimension_matching=c["disable_space_dimension_matching"])
+            res = compare_impl(G.to_fieldcompare(A), G.to_fieldcompare(B), disable_space_dimension_matching=c["disable_space_dimension_matching"],
+                               **({"disable_mesh_reordering": True} if c.get("disable_mesh_reordering") else {}))
             print(res)
             if c["disable_space_dimension_matching"]:
                 return not res["bool"]
